@@ -30,7 +30,7 @@ use std::sync::{Arc, Condvar, Mutex};
 use std::time::{Duration, Instant};
 
 use ractor::thread_local::{ThreadLocalActor, ThreadLocalActorSpawner};
-use ractor::{Actor, ActorCell, ActorId, ActorProcessingErr, ActorRef, SpawnErr, SupervisionEvent};
+use ractor::{Actor, ActorCell, ActorId, ActorProcessingErr, ActorRef, ActorStatus, SpawnErr, SupervisionEvent};
 use rv_harness::*;
 use tokio::sync::Notify;
 use tokio::task::{AbortHandle, JoinHandle};
@@ -870,21 +870,46 @@ async fn run_case(line: &str) -> String {
         None => settle().await,
     }
     // tidy up: kill everything still alive so that nothing leaks into the next case
-    let cells: Vec<ActorCell> = ctx.cells.lock().unwrap().values().cloned().collect();
-    let out = coq_list(&ctx.trace.lock().unwrap().clone());
+    let mut cells: Vec<(usize, ActorCell)> = ctx.cells.lock().unwrap().iter().map(|(a, c)| (*a, c.clone())).collect();
+    cells.sort_by_key(|x| x.0);
+    let mut out = coq_list(&ctx.trace.lock().unwrap().clone());
     for g in ctx.gates.lock().unwrap().values() {
         g.open.store(true, Ordering::SeqCst);
         g.notify.notify_waiters();
     }
-    for c in cells {
+    for (_, c) in &cells {
         c.kill();
     }
-    match local {
-        Some(l) => {
-            l.settle(&ctx).await;
-            l.finish();
-        }
+    match &local {
+        Some(l) => l.settle(&ctx).await,
         None => settle().await,
+    }
+    // kill() is immediate (C03): after the settle every actor that was ever started is Stopped.
+    // An actor that survived is reported with the case (a Coq comment after the trace, read by
+    // lib/loopsim.py) and then disposed of through its task handles so that the next case starts clean.
+    let survivors: Vec<usize> = cells
+        .iter()
+        .filter(|(_, c)| !matches!(c.get_status(), ActorStatus::Stopped | ActorStatus::Unstarted))
+        .map(|(a, _)| *a)
+        .collect();
+    if !survivors.is_empty() {
+        let ids: Vec<String> = survivors.iter().map(|a| a.to_string()).collect();
+        out.push_str(&format!(" (* SURVIVED-KILL {} *)", ids.join(" ")));
+        for a in &survivors {
+            if let Some(h) = ctx.loop_abort.lock().unwrap().get(a) {
+                h.abort();
+            }
+            if let Some(h) = ctx.start_abort.lock().unwrap().get(a) {
+                h.abort();
+            }
+        }
+        match &local {
+            Some(l) => l.settle(&ctx).await,
+            None => settle().await,
+        }
+    }
+    if let Some(l) = local {
+        l.finish();
     }
     out
 }
